@@ -140,10 +140,11 @@ Proof.
   intros Hne Hc Hpos. destruct (all_shape3_tt _ _ _ _ Hc) as (ds & Eds & Ens).
   unfold tt_to_tensor. destruct cs as [|fa rest]; [congruence|]. rewrite Eds. cbn [rbind]. rewrite Ens.
   inversion Hc as [|? n r1 ? ? ns' ? Hfa Hr1 Hrest]; subst. cbn [hd].
+  match goal with H : _ :: _ = map d3b ds |- _ => rewrite <- H in Hpos end.
   assert (Hn : n <> 0) by (simpl in Hpos; nia).
   rewrite (reshape_front fa n r1) by (try assumption; rewrite Hfa; simpl; lia). cbn [rbind].
-  destruct (tt_loop_spec _ _ _ _ Hrest (reshape [n; r1] fa) n eq_refl Hr1) as (full' & H2 & Hs2 & Hg2).
-  rewrite H2. cbn [rbind].
+  destruct (tt_loop_spec _ _ _ _ Hrest (reshape [n; r1] fa) n eq_refl Hr1) as (full' & HL2 & Hs2 & Hg2).
+  rewrite HL2. cbn [rbind].
   rewrite reshape_spec_all_some by (rewrite Hs2; simpl; lia).
   eexists. split; [reflexivity|]. split; [reflexivity|].
   intros idx Hi. destruct idx as [|i js]; [simpl in Hi; tauto|].
@@ -153,7 +154,7 @@ Proof.
   - unfold Factorized.get2, get, reshape. cbn [shape data]. rewrite Hs2. f_equal. simpl. lia.
   - rewrite Hg2 by (auto; lia). cbn [chain]. rewrite Hfa. cbn [nth].
     apply (fsumn_ext F Op); intros c Hc'. f_equal.
-    rewrite get2_reshape2, (get3_data fa 1 n r1) by exact Hfa. f_equal. lia.
+    rewrite get2_reshape2, (get3_data fa 1 n r1) by exact Hfa. f_equal; try lia.
 Qed.
 
 End P.
